@@ -545,12 +545,21 @@ def c18_run(pid, tier, seed):
     LARGE_FIRST = ["write_files", "copy_and_equality", "observers", "stream_output", "subgraph", "bfs_searches",
                    "reverse", "to_undirected", "to_directed", "dijkstra"]
     confs = [("tsan", 4, 25 if q else 150, None), ("o1", 8, 60 if q else 600, None)]
-    confs += [("tsan", 4, 1 if q else 3, f) for f in LARGE_FIRST] + [("o1", 8, 4 if q else 20, "write_files")]
+    # (each first-op experiment twice, with 8 threads: whether two threads really overlap in their first call
+    # depends on the scheduler, in particular on a loaded machine)
+    confs += [("tsan", 8, 1 if q else 3, f) for f in LARGE_FIRST for _rep in range(2 if q else 3)]
+    confs += [("o1", 8, 4 if q else 20, "write_files")]
+
+    import threading
+    _conc_lock, _conc_count = threading.Lock(), [0]
 
     def conc_run(conf):
         build, threads, iters, large = conf
         exe = vf.build_ch(build)
-        tag = build + ("-large-" + large if large else "")
+        with _conc_lock:
+            _conc_count[0] += 1
+            serial = _conc_count[0]
+        tag = build + ("-large-%s-%d" % (large, serial) if large else "")
         rd = vf.fresh_dir(os.path.join(vf.RUN, pid, "conc-" + tag))
         logs = vf.fresh_dir(os.path.join(rd, "logs"))
         plan = {"threads": threads, "iterations": iters, "seed": int(seed), "vertices": 8 if q else 10,
